@@ -302,6 +302,10 @@ func runC06(r *R) {
 			r.Bad("C06-R7", fn, "gettingExactTimestamp = false", fn.Pos(), "mode reset not found")
 		}
 	}
+	r.Rule("C06-R8", "EachCollection paging state machine: the three filter forms (advance / enter exact-timestamp mode / leave it) carry the right cursor and flag and are taken under the right page conditions; the loop ends only after an empty page outside exact mode; every item that is not a repeat of the previous one reaches the callback and is remembered", 1)
+	if fn := r.NeedFn("C06-R8", kb+".EachCollection"); fn != nil {
+		c06Paging(r, fn)
+	}
 	if fn := r.NeedFn("C06-R6", bal+"CheckSanityLate"); fn != nil {
 		ok := false
 		for _, ret := range Returns(fn) {
